@@ -148,7 +148,11 @@ func (sv *Solver) solve(text string, timeout time.Duration) solveResult {
 	}
 	sv.sem <- struct{}{}
 	defer func() { <-sv.sem }()
-	file := filepath.Join(sv.scratch, key+".smt2")
+	sv.mu.Lock()
+	sv.nfile++
+	nf := sv.nfile
+	sv.mu.Unlock()
+	file := filepath.Join(sv.scratch, fmt.Sprintf("%s.%d.smt2", key, nf))
 	os.WriteFile(file, []byte(text), 0o644)
 	defer os.Remove(file)
 	secs := int(timeout.Seconds())
